@@ -42,3 +42,16 @@ package certloader
 //@   property C07
 //@   loop 0 sig "for i, cert := range s.Certificates" invariant s.Leaf != nil ==> len(chain) >= 1 && chain[0] == s.Leaf
 //@   ensures @chain_begins_with_the_leaf s.Leaf != nil ==> len(ret0) >= 1 && ret0[0] == s.Leaf
+
+//@ func ParseAnyPrivateKey
+//@   property C11
+//@   nopanic
+//@
+//@ func parsePgpPrivateKey
+//@   property C11
+//@   nopanic
+//@   requires len(blob) >= 1
+//@
+//@ func parsePGP
+//@   property C11
+//@   nopanic
